@@ -794,6 +794,7 @@ func (x *Exec) loopHeader(h *ssa.BasicBlock, ci *cfgInfo, pre *State, reach Term
 		for _, inv := range lc.Invariants {
 			env := x.specEnv(post, nil)
 			env.header = h
+			env.noAlts = true // assumed at the loop head
 			g, err := env.EvalBool(inv.Expr)
 			if err != nil {
 				continue
@@ -1067,6 +1068,13 @@ func (x *Exec) loopHeapWrites(h *ssa.BasicBlock, ci *cfgInfo) map[string]bool {
 									out[heapName(sl.Elem())] = true
 									continue
 								}
+							}
+							return false
+						}
+						if full == "sort.Ints" || full == "sort.Float64s" || full == "sort.Strings" {
+							if sl, ok := c.Args[0].Type().Underlying().(*types.Slice); ok {
+								out[heapName(sl.Elem())] = true
+								continue
 							}
 							return false
 						}
